@@ -9,7 +9,8 @@ def build(props=None):
     import contracts.scoped_dict as sd
     import contracts.ast_ops as ao
     import contracts.functions as fu
-    mods = [sd, ao, fu]
+    import contracts.sq_parser as sp
+    mods = [sd, ao, fu, sp]
     for m in mods:
         eng.contracts.update(m.contracts(eng))
     tasks = []
